@@ -134,6 +134,20 @@ impl Writer {
         }
     }
 
+    // add a float to the output, which can be recognized as a float when it is read again.
+    // Inside IF_DATA the type of a value decides how the surrounding data is interpreted: "1000" could also
+    // be an integer belonging to a different item, while "1000.0" can only be a float.
+    pub(crate) fn add_float_explicit<T>(&mut self, value: T, offset: u32)
+    where
+        T: std::convert::Into<f64>,
+    {
+        let startpos = self.outstring.len();
+        self.add_float(value, offset);
+        if !self.outstring[startpos..].contains(['.', 'e', 'E']) {
+            self.outstring.push_str(".0");
+        }
+    }
+
     pub(crate) fn add_group(&mut self, mut group: Vec<TaggedItemInfo>) {
         // intially sort the group items by their id / name / etc
         group.sort_by(Self::sort_function);
